@@ -204,7 +204,7 @@ def arithmetic_shapes():
 def plan(tier, seed, scale):
     K = 16
     tasks = [{"name": "exh", "kind": "exh"}]
-    total = int((20000 if tier == "quick" else 600000) * scale)
+    total = int((20000 if tier == "quick" else 130000) * scale)
     for i in range(K):
         tasks.append({"name": "rand-%d" % i, "kind": "rand", "n": max(total // K, 10), "shard": i,
                       "depth": 4 if tier == "quick" else 6})
